@@ -98,6 +98,11 @@ NAME_TEMPLATES = [
     "void g(void) { int N; { typedef int N; N v = 0; (void)v; } N = 1; (void)N; }",
     "typedef int N; int g(N); int g(N x) { return x; }",
     "extern int N; static int h(void) { extern int N; return N; }",
+    "typedef int N; int f(int (*N)(int)) { return N(1); }",
+    "typedef int N; void f(int (*N), int (*const N2)(N), int ((*N1)));",
+    "typedef int N; void f(int *(N), int (N), int (*(N)));",
+    "typedef struct N N; void add(N *N); struct tree { N *root; };",
+    "typedef unsigned long N; void *grab(int N); int h() { N n2 = 4; return (int)n2; }",
 ]
 
 
